@@ -67,6 +67,55 @@ class ScriptWorkload(Workload):
         return list(out)
 
 
+class ForeignSim:
+    """A second, unrelated simulation that lives in the same process and is stepped in lock-step with the run under
+    observation (an A/B comparison, a parameter sweep that builds its objects up front).  It is created a few ticks
+    into the run - its Executor / Scheduler / generator objects are constructed while the observed run has live
+    containers - uses the same policy, re-uses the observed run's pipeline ids with other priorities, and half of its
+    work is too big for its pools (OOM kills, retries, give-ups).  Nothing of it may leak into the observed run."""
+
+    def __init__(self, h):
+        from eudoxia.executor import Executor
+        from eudoxia.scheduler import Scheduler
+        algo = h.algo if h.algo in ("naive", "priority", "priority-pool", "overbook") else "priority"
+        tps = h.params["ticks_per_second"]
+        p = dict(get_param_defaults())
+        p.update({"scheduler_algo": algo, "num_pools": 2, "cpus_per_pool": 4, "ram_gb_per_pool": 8, "ticks_per_second": tps,
+                  "duration": 10 ** 6, "multi_operator_containers": True, "allow_memory_overcommit": algo == "overbook",
+                  "interactive_prob": 0.0, "query_prob": 0.5, "batch_prob": 0.5, "random_seed": 987654321,
+                  "waiting_seconds_mean": 3.0 / tps, "num_pipelines": 2, "num_operators": 2})
+        self.ex = Executor(**p)
+        self.sched = Scheduler(self.ex, **p)
+        self.gen = WorkloadGenerator(**p)          # a second generator with another priority triple, alive and ticking
+        ids = []
+        ws = h.workload_spec
+        if ws.get("type") == "script":
+            ids = [sp["pid"] for specs in ws["arrivals"].values() for sp in specs][:40]
+        ids = ids or [f"p{i}" for i in range(1, 30)]
+        prios = ["QUERY", "BATCH_PIPELINE", "INTERACTIVE"]
+        self.todo = []
+        for i, pid in enumerate(ids):
+            big = i % 2 == 0
+            ops = [{"parents": [k - 1] if k else [], "segs": [{"cpu": 2.5 / tps, "law": "const",
+                                                              "mem": (100.0 if big and k == 1 else 0.05), "read": 0.0}]}
+                   for k in range(2)]
+            self.todo.append((3 * i, {"pid": pid, "prio": prios[i % 3], "ops": ops}))
+        self.results = []
+        self.t = 0
+
+    def step(self):
+        new = []
+        while self.todo and self.todo[0][0] <= self.t:
+            _, spec = self.todo.pop(0)
+            pl, _ops = sut.build_pipeline(spec)
+            pl.runtime_status().record_arrival(self.t)
+            new.append(pl)
+        self.gen.run_one_tick()
+        sus, asg = self.sched.run_one_tick(self.results, new)
+        self.results = self.ex.run_one_tick(sus, asg)
+        self.t += 1
+
+
 class _Recording(Workload):
     def __init__(self, h, inner):
         self.h = h
@@ -75,6 +124,19 @@ class _Recording(Workload):
     def run_one_tick(self):
         h = self.h
         h.tick += 1
+        if h.foreign_from is not None and h.tick >= h.foreign_from and h.foreign_error is None:
+            # the other simulation's turn: invisible to our recorders (its life-cycle events are not ours)
+            saved = TransitionLog.active
+            TransitionLog.active = None
+            try:
+                if h.foreign is None:
+                    h.foreign = ForeignSim(h)
+                h.foreign.step()
+                h.ev("foreign_simulation_steps")
+            except Exception:
+                h.foreign_error = traceback.format_exc()[-1200:]
+            finally:
+                TransitionLog.active = saved
         ps = self.inner.run_one_tick()
         h.on_arrivals(ps)
         return ps
@@ -179,8 +241,11 @@ def ensure_random_policy():
                         ram *= 0.999
                 if ram <= 0:
                     break
-                asg.append(Assignment(ops=ops, cpu=cpu, ram=ram, priority=p.priority, pool_id=pool.pool_id,
-                                      pipeline_id=p.pipeline_id))
+                # the priority on a container is the scheduler's label (a policy may promote or demote work);
+                # it is not the priority of the pipeline
+                label = p.priority if rng.random() < 0.8 else rng.choice(list(type(p.priority)))
+                asg.append(Assignment(ops=ops, cpu=cpu, ram=ram, priority=label, pool_id=pool.pool_id,
+                                      pipeline_id=p.pipeline_id, is_resume=rng.random() < 0.2))
                 fc -= cpu
                 if not overcommit:
                     fr -= ram
@@ -215,9 +280,12 @@ def ensure_registered(algo):
 class Harness:
     current = None
 
-    def __init__(self, params, algo, workload_spec, monitors, keep_log=False):
+    def __init__(self, params, algo, workload_spec, monitors, keep_log=False, foreign_from=None):
         self.params = dict(get_param_defaults())
         self.params.update(params)
+        self.foreign_from = foreign_from      # tick from which a second simulation is stepped alongside (None: never)
+        self.foreign = None
+        self.foreign_error = None
         self.algo = algo
         self.workload_spec = workload_spec
         self.monitors = monitors
@@ -315,6 +383,16 @@ class Harness:
     def round(self, s, algo, results, pipelines):
         t = self.tick
         self.n_rounds += 1
+        if t % 3 == 1 and self.ex is not None:
+            # a reporting client serialises state between two ticks; reading must not change anything
+            try:
+                for p_ in self.ex.pools:
+                    p_.to_dict()
+                for pl_ in self.pipelines[-8:]:
+                    pl_.to_dict()
+                self.ev("state_serialised_between_ticks")
+            except Exception:
+                self.ev("state_serialisation_raised")
         self.dispatch("sched_pre", t, s, results, pipelines)
         try:
             sus, asg = SCHEDULING_ALGOS[algo](s, results, pipelines)
@@ -332,6 +410,16 @@ class Harness:
     def on_exec(self, results):
         t = self.tick
         self.cur_results = list(results)
+        # a consumer may keep what it was handed: the result lists of earlier ticks must still say what they said
+        kept = self.__dict__.setdefault("_kept_results", [])
+        for (t_, lst_, ids_) in kept:
+            if [id(r) for r in lst_] != ids_:
+                self.problem(("C09",), "delivered-results-changed", f"the result list delivered in tick {t_} held {len(ids_)} result(s); "
+                                                                     f"looked at again in tick {t} it holds {len(lst_)} (other) ones")
+                kept.clear()
+                break
+        kept.append((t, results, [id(r) for r in results]))
+        del kept[:-6]
         if self.monitor_error is None:
             try:
                 self.track_containers(results)
